@@ -32,17 +32,18 @@ def _leaves(eg):
             yield x
 
 
-def scn(sym, cov, beh, cleanup, who, eager=False, native=False, return_handle=False, twice=False):
+def scn(sym, cov, beh, cleanup, who, eager=False, native=False, return_handle=False, twice=False, T=2, J=2, sibling=False):
     """beh: 0 started then return | 1 raise before started | 2 return w/o started | 3 started then raise | 4 block forever before started
     cleanup (on cancellation): 0 re-raise | 1 raise E | 2 shielded sleep(1) then re-raise
     who: which scope is cancelled at the symbolic instant: 'caller' | 'group' | 'none'"""
     import anyio
     from anyio import TASK_STATUS_IGNORED, CancelScope
 
-    pre = sym.int("pre", 0, 2)
-    post = sym.int("post", 0, 2)
-    ct = sym.int("ct", 0, 4)
-    cj = sym.int("cj", 0, 2)
+    pre = sym.int("pre", 0, T)
+    post = sym.int("post", 0, T)
+    ct = sym.int("ct", 0, 2 * T)
+    cj = sym.int("cj", 0, J)
+    sd = sym.int("sd", 0, T) if sibling else 0
     v = sym.int("v", 0, 1000)
     loop = VLoop(eager=eager)
     raised: list = []
@@ -113,6 +114,17 @@ def scn(sym, cov, beh, cleanup, who, eager=False, native=False, return_handle=Fa
 
                     if who != "none":
                         loop.env_at(ct, cj, fire)
+                    if sibling:
+                        async def sib():
+                            try:
+                                await anyio.sleep(sd)
+                                e = E("sibling")
+                                raised.append(e)
+                                raise e
+                            finally:
+                                st["sibling_done"] = True
+
+                        tg.start_soon(sib)
                     try:
                         r = await tg.start(child, return_handle=return_handle)
                         out["start"] = r.start_value if return_handle else r
@@ -182,7 +194,7 @@ def scn(sym, cov, beh, cleanup, who, eager=False, native=False, return_handle=Fa
         chk(out["start"] == v, "start-wrong-value", {"got": out["start"], "want": v})
     if "start_exc" in out:
         cov.hit("start:child-raised-before-started", str(out["start_exc"]) == "early")
-        chk(not st["started_called"] or fired is not None, "start-raised-after-started")
+        chk(not st["started_called"] or fired is not None or sibling, "start-raised-after-started")
         chk(out["exc_child_done"], "start-raised-before-child-terminated")
         if who == "none" and beh == 1:
             chk(not out.get("group_cancelled_after_start"), "group-cancelled-by-early-child-exit")
@@ -193,13 +205,14 @@ def scn(sym, cov, beh, cleanup, who, eager=False, native=False, return_handle=Fa
         if who == "none":
             chk(not out.get("group_cancelled_after_start"), "group-cancelled-by-early-child-exit")
     if out.get("start_cancelled"):
-        chk(fired is not None, "start-cancelled-without-cancel")
+        # (with a failing sibling the group may be cancelled by that failure before the environment acts)
+        chk(fired is not None or sibling, "start-cancelled-without-cancel")
         # the child has fully terminated before start() re-raises -- unless started() had already
         # been called, in which case the child is an ordinary member of the group
         if not st["started_called"] or (fired is not None and not fired[2]):
             chk(out["exc_child_done"], "start-reraised-before-child-terminated")
-        cov.hit("start:caller-cancelled-before-started", who == "caller" and not fired[2])
-        cov.hit("start:group-cancelled-before-started", who == "group" and not fired[2])
+        cov.hit("start:caller-cancelled-before-started", who == "caller" and fired is not None and not fired[2])
+        cov.hit("start:group-cancelled-before-started", who == "group" and fired is not None and not fired[2])
         cov.hit("start:cleanup-raised-while-caller-cancelled", who == "caller" and any(str(e) == "cleanup" for e in raised))
     if who == "none":
         chk(not out.get("start_cancelled"), "start-cancelled-without-cancel")
@@ -245,4 +258,9 @@ def units(tier):
                 for who in ("caller", "group"):
                     us.append({"name": "eager beh=%d cleanup=%d who=%s" % (beh, cleanup, who), "fn": scn,
                                "params": {"beh": beh, "cleanup": cleanup, "who": who, "eager": True}, "budget_s": 600})
+                    us.append({"name": "T=3 J=3 beh=%d cleanup=%d who=%s" % (beh, cleanup, who), "fn": scn,
+                               "params": {"beh": beh, "cleanup": cleanup, "who": who, "T": 3, "J": 3}, "budget_s": 1200})
+                    # a failing sibling in the same group: its failure cancels the group while start() is pending
+                    us.append({"name": "sibling beh=%d cleanup=%d who=%s" % (beh, cleanup, who), "fn": scn,
+                               "params": {"beh": beh, "cleanup": cleanup, "who": who, "sibling": True, "T": 1}, "budget_s": 1200})
     return us
